@@ -229,6 +229,28 @@ def c20_cases(tier):
             return None
         yield "malformed header %r" % bad, thunk
 
+    def shrink():
+        # a second run into the same --output file after the schema shrank: the file is the new reply, nothing else
+        big = json.dumps({"data": json.loads(render_json(dict(schema, enums={"Kind": ["A", "B"], "Extra": ["X" * 40, "Y" * 40, "Z" * 40]})))})
+        d = _fresh("c20")
+        out = os.path.join(d, "schema.json")
+        for pl in (big, payload):
+            srv = _serve("ok", pl)
+            try:
+                res = run_cli(["introspect-schema", "http://127.0.0.1:%d/graphql" % srv.server_address[1], "--output", out], timeout=30)
+            finally:
+                srv.shutdown()
+            if res["exit"] != 0:
+                return "introspect-schema exits %s on a 200 + JSON reply" % res["exit"]
+        try:
+            got = json.loads(open(out).read())
+        except Exception as e:
+            return "after a second run with a shorter reply the output file is not JSON any more (%s)" % str(e)[:80]
+        if got != json.loads(payload):
+            return "after a second run the output file is not the server's last reply"
+        return None
+    yield "second run into the same output file", shrink
+
     for mode in ("garbage", "400json", "404", "500", "close"):
         def thunk(mode=mode):
             res, seen, out = run(mode, [], existing="KEEP")
